@@ -580,7 +580,7 @@ pub fn run(args: &Args) -> Report {
         ks: if thorough { vec![0, 1, 2, 3, 4] } else { vec![0, 1, 2] },
         env: 0,
         fault: 0,
-        total_wall: Duration::from_secs(if thorough { 1500 } else { 50 }),
+        total_wall: Duration::from_secs(if thorough { 1500 } else { 100 }),
         max_execs_per_case: 2_000_000,
         required_witnesses: W_ZERO_SKIPPED | W_LIVE_SKIPPED | W_COLLISION | W_REJECTED_GAVE_UP | W_RETRY_SUCCEEDED | W_ALL_PAIRED | W_PEER_REOPENED_REJECTED_ID,
         adaptive: thorough,
